@@ -617,6 +617,30 @@ macro_rules! gen_c10serde {
                     }
                 }};
             }
+            // the two client states hold the blinded element somewhere inside: located by its bytes in the bincode output
+            macro_rules! alias_state {
+                ($ty:ty, $name:expr, $v:expr, $elem:expr) => {{
+                    let elem: Vec<u8> = $elem;
+                    if let Ok(b) = bincode::serialize(&$v) {
+                        if let Some(pos) = b.windows(elem.len()).position(|w| w == &elem[..]) {
+                            for tag in 0u8..=255 { if tag != b[pos] {
+                                acc.tried += 1;
+                                let mut b2 = b.clone(); b2[pos] = tag;
+                                if let Ok(m) = bincode::deserialize::<$ty>(&b2) {
+                                    if let Ok(re) = bincode::serialize(&m) { if re != b2 {
+                                        acc.hit(stringify!($cs), "serde: an alias encoding of the OPRF element inside a persisted state is accepted and re-encodes differently", json!({"decoder": $name, "tag": tag, "reencoded_tag": re[pos], "path": "bincode"}));
+                                    } }
+                                }
+                            } }
+                        }
+                    }
+                }};
+            }
+            let c2 = ClientRegistration::<$cs>::start(&mut rng, p.pw)?;
+            alias_state!(ClientRegistration<$cs>, "ClientRegistration", c2.state, c2.message.serialize().to_vec());
+            let cl2 = ClientLogin::<$cs>::start(&mut rng, p.pw)?;
+            let noe = rreq.serialize().len();
+            alias_state!(ClientLogin<$cs>, "ClientLogin", cl2.state, cl2.message.serialize()[..noe].to_vec());
             alias!(RegistrationRequest<$cs>, "RegistrationRequest", rreq);
             alias!(RegistrationResponse<$cs>, "RegistrationResponse", rresp);
             alias!(CredentialRequest<$cs>, "CredentialRequest", creq);
